@@ -20,6 +20,13 @@ def check(repo: Repo, rep: Report) -> None:
         "the late-subscriber branch of _subscribe_core does the same from the stored fields, the error branch delivers "
         "only the error; the error core is Subject's (no value).")
     SC.rules(rep, {"B1-snapshot": 2, "B2-state-before-callout": 1, "B3-subscribe-branches": 4, "B5-dispose": 1})
+    # state fields are read under the lock only; fan-outs deliver parameters / locked snapshots
+    _cls = repo.fn("reactivex/subject/asyncsubject.py", "AsyncSubject")
+    SC.rule_locked_reads(rep, _cls)
+    for _mn in ("_on_next_core", "_on_error_core", "_on_completed_core"):
+        _m = _cls.child(_mn) or repo.fn("reactivex/subject/subject.py", "Subject").child(_mn)
+        if _m is not None:
+            SC.rule_delivery_argument(rep, _m)
     rep.rule("A1-nothing-before-termination", "_on_next_core delivers nothing and stores value + has_value", floor=2)
     rep.rule("A2-final-value", "completion delivers value iff has_value, then on_completed, to every observer", floor=3)
     cls = repo.fn(A, "AsyncSubject")
